@@ -539,12 +539,22 @@ def rules(rep, m):
                 r7.ok()
 
 
+    # R-C02-8 ------------------------------------------------------------
+    r8 = rep.rule("R-C02-8", "one round of heap_down pulls up an existing child that the other child does not go before, and "
+                  "only if the moving tag does not go before it, stops only when no child goes before the moving tag, runs "
+                  "exactly while a left child exists and never reads beyond heap_count; one round of heap_up pulls the parent "
+                  "down iff the moving tag goes before it and runs exactly while a parent exists; the working copy is stored "
+                  "into the final hole - exhaustively over the children present and all orders of the tags involved", floor=6)
+    from . import siftrules
+    siftrules.check_sifts(rep, r8, m)
+
+
 def run(tier="quick"):
     models = common.load_models(tier)
     rep = Report(PID, tier, models[0])
     rep.exhaustive = True
     rep.assumptions = ["sort keys are not NaN", "keys are unique and non-zero (asserted by the API)"]
-    rep.not_decided = ["index arithmetic of the sift loops (k>>1, 2k, 2k+1) and of the probe sequence",
+    rep.not_decided = ["termination of the sift loops; index arithmetic of the probe sequence",
                        "placement chosen by rehash"]
     for m in models:
         rep.configs.append(m.config)
